@@ -247,6 +247,8 @@ Definition separating (n : nat) (effects : list lvec) : Prop :=
 Definition identifiable (n : nat) (stat : rvec F -> list F) : Prop :=
   forall v v' : rvec F, stat v = stat v' -> forall i, (i < n)%nat -> v i = v' i.
 Definition well_formed_vec (d : nat) (l : lvec) : Prop := length l = (d * d)%nat.
+(* a list on which truncate_and_normalize is the identity: entries are 0 or at least eps, and they sum to 1 *)
+Definition valid_dist (eps : F) (p : list F) : Prop := (forall x, In x p -> x = 0 \/ kle F eps x) /\ lsum p = 1.
 End C08.
 
 Arguments vl {F} l _. Arguments dotl {F} r v. Arguments zeros {F} k. Arguments tile {F} l k.
